@@ -6,3 +6,4 @@ CONSTANTS
   MaxMax = 2
 INVARIANTS TypeOK MaxCount
 PROPERTIES OncePerTrigger NoCallAfterUnhook Complete InOrder LinkExclusive
+VIEW MCView
